@@ -35,12 +35,14 @@ func (h *Hang) Key() string {
 	if h == nil {
 		return ""
 	}
+	// the key names what each waiter waits FOR (lock, pipe-read, pipe-write-wait ...), not the function it waits in, so that
+	// renaming or moving code does not turn a known deadlock into a new class; the functions are in the detail text
 	ws := []string{}
 	for _, w := range h.Waiters {
 		if w.Kind == "quiesce" {
 			continue
 		}
-		ws = append(ws, w.Where+"@"+w.Kind)
+		ws = append(ws, w.Kind)
 	}
 	sort.Strings(ws)
 	k := strings.Join(ws, ",")
